@@ -52,6 +52,9 @@ func (s *randomBitStream) drawBits(n int) uint64 {
 		u = math.MaxUint64
 	}
 	s.record(u)
+	if verifOn {
+		verifEmit("bits", "src", "rand", "n", n, "u", u)
+	}
 
 	return u
 }
@@ -73,11 +76,17 @@ func (s *bufBitStream) drawBits(n int) uint64 {
 	assert(n >= 0)
 
 	if len(s.buf) == 0 {
+		if verifOn {
+			verifEmit("overrun", "n", n)
+		}
 		panic(invalidData("overrun"))
 	}
 
 	u := s.buf[0] & bitmask64(uint(n))
 	s.record(u)
+	if verifOn {
+		verifEmit("bits", "src", "buf", "n", n, "u", u, "raw", s.buf[0], "left", len(s.buf))
+	}
 	s.buf = s.buf[1:]
 
 	return u
@@ -107,6 +116,9 @@ func (rec *recordedBits) record(u uint64) {
 }
 
 func (rec *recordedBits) beginGroup(label string, standalone bool) int {
+	if verifOn {
+		verifEmit("group.begin", "label", label, "standalone", standalone, "persist", rec.persist, "pos", len(rec.data)+rec.dataLen)
+	}
 	if !rec.persist {
 		return rec.dataLen
 	}
@@ -122,6 +134,9 @@ func (rec *recordedBits) beginGroup(label string, standalone bool) int {
 }
 
 func (rec *recordedBits) endGroup(i int, discard bool) {
+	if verifOn {
+		verifEmit("group.end", "i", i, "discard", discard, "persist", rec.persist, "pos", len(rec.data)+rec.dataLen)
+	}
 	assertf(discard || (!rec.persist && rec.dataLen > i) || (rec.persist && len(rec.data) > rec.groups[i].begin),
 		"group did not use any data from bitstream; this is likely a result of Custom generator not calling any of the built-in generators")
 
@@ -135,6 +150,10 @@ func (rec *recordedBits) endGroup(i int, discard bool) {
 
 func (rec *recordedBits) prune() {
 	assert(rec.persist)
+	if verifOn {
+		verifEmit("prune.begin", "data", verifWords(rec.data), "groups", verifGroups(rec.groups))
+		defer func() { verifEmit("prune.end", "data", verifWords(rec.data), "groups", verifGroups(rec.groups)) }()
+	}
 
 	for i := 0; i < len(rec.groups); {
 		if rec.groups[i].discard {
